@@ -160,12 +160,28 @@ class Functor(IUnifiable):
         else:
             return YPFail()
 
+def _copy_term(term, mapping):
+    """Return a copy of the current value of term in which every unbound variable is replaced
+    by a new variable (the same new variable for every occurrence, recorded in mapping)."""
+    term = get_value(term)
+    if isinstance(term, Variable):
+        if term not in mapping:
+            mapping[term] = Variable()
+        return mapping[term]
+    if isinstance(term, Functor):
+        return Functor(term._name, [_copy_term(a, mapping) for a in term._args])
+    return term
+
 class Answer:
-    """Data structure to represent predicates/facts."""
+    """Data structure to represent predicates/facts. A fact is a copy of the asserted term
+    (later bindings of the caller's variables do not affect it) and its variables are
+    renamed at every use."""
     def __init__(self, values):
-        self.values = values
+        mapping = {}
+        self.values = [_copy_term(v, mapping) for v in values]
     def match(self, args):
-        return unify_arrays(args, self.values)
+        mapping = {}
+        return unify_arrays(args, [_copy_term(v, mapping) for v in self.values])
     def __str__(self):
         return f'Answer({[to_python(x) for x in self.values]})'
 
